@@ -13,6 +13,10 @@
 //   R5  gopool.Go(f) -> vGo(f)   (stream.go)
 //   R7  syscall.RawSyscall(SYS_READ,..) / syscall.Syscall(SYS_WRITE|SYS_WRITEV,..) -> vSysRead/vSysWrite/vSysWritev(..)
 //   R8  s.asyncGoroutineWg.Add(n) / .Done() / .Wait() -> vWgAdd(&s.asyncGoroutineWg, n) / vWgDone(..) / vWgWait(..)
+//   R9  (listener.go, session_manager.go) go func(){..}() -> vGo(func(){..}); go func(id int){..}(i) -> vGoInt(.., i)
+//   R10 (same files) time.NewTimer / time.NewTicker / time.Sleep -> vNewTimer / vNewTicker / vSleep (harness-controlled)
+//   R11 (same files) vYield("sel:<recv>.<fn>#k") before every select of checkHotRestart / background
+//   R12 (session_manager.go) newClientSession(..) -> vNewClientSession(..) (hook; the real function when no hook is set)
 //   R6  in Session.wakeUpPeer / Session.hotRestart / Session.send: s.writeEventData(..) is preceded by
 //       vYield("writeEvent")
 // With no scheduler installed every v* helper is a pass-through.
@@ -103,10 +107,36 @@ func main() {
 			isQ := rn == "queue" && (fn == "put" || fn == "pop")
 			isPop := rn == "bufferList" && fn == "pop"
 			isWriter := rn == "Session" && (fn == "wakeUpPeer" || fn == "hotRestart" || fn == "send")
+			isRestartFile := name == "listener.go" || name == "session_manager.go"
+			selN := 0
 			ast.Inspect(fd.Body, func(n ast.Node) bool {
 				switch x := n.(type) {
+				case *ast.GoStmt:
+					// R9: go func(..){..}(args) -> vGo(func(){..}) / vGoInt(func(id int){..}, arg)   (listener.go, session_manager.go)
+					if fl, ok := x.Call.Fun.(*ast.FuncLit); ok && isRestartFile {
+						if len(x.Call.Args) == 0 {
+							edits = append(edits, edit{off(x.Pos()), off(fl.Pos()), "vGo("})
+							edits = append(edits, edit{off(fl.End()), off(x.Call.End()), ")"})
+						} else if len(x.Call.Args) == 1 {
+							edits = append(edits, edit{off(x.Pos()), off(fl.Pos()), "vGoInt("})
+							edits = append(edits, edit{off(fl.End()), off(x.Call.End()), ", " + text(x.Call.Args[0]) + ")"})
+						}
+					}
+				case *ast.SelectStmt:
+					// R11: a scheduling point before every select of the hot-restart checkers and the pool watchers
+					if isRestartFile && (fn == "checkHotRestart" || fn == "background") {
+						edits = append(edits, edit{off(x.Pos()), off(x.Pos()), fmt.Sprintf("vYield(%s); ", quote(fmt.Sprintf("sel:%s.%s#%d", rn, fn, selN)))})
+						selN++
+					}
 				case *ast.CallExpr:
+					if id, ok := x.Fun.(*ast.Ident); ok && id.Name == "newClientSession" && isRestartFile {
+						edits = append(edits, edit{off(id.Pos()), off(id.End()), "vNewClientSession"}) // R12
+					}
 					if se, ok := x.Fun.(*ast.SelectorExpr); ok {
+						if id, ok := se.X.(*ast.Ident); ok && id.Name == "time" && isRestartFile &&
+							(se.Sel.Name == "NewTimer" || se.Sel.Name == "NewTicker" || se.Sel.Name == "Sleep") {
+							edits = append(edits, edit{off(se.Pos()), off(se.End()), "v" + se.Sel.Name}) // R10
+						}
 						if in, ok := se.X.(*ast.SelectorExpr); ok && in.Sel.Name == "asyncGoroutineWg" {
 							// R8: the callback goroutines' WaitGroup goes through a shadow counter so that Wait() can yield
 							edits = append(edits, edit{off(x.Pos()), off(x.Lparen) + 1, "vWg" + se.Sel.Name + "(&" + text(in)})
@@ -169,6 +199,9 @@ func main() {
 		}
 		if importsAtomic {
 			outb = append(outb, []byte("\nvar _ = atomic.LoadUint32\n")...)
+		}
+		if strings.Contains(string(src), "\"time\"") && (name == "listener.go" || name == "session_manager.go") {
+			outb = append(outb, []byte("\nvar _ = time.Now\n")...)
 		}
 		if strings.Contains(string(src), "gopool.") {
 			outb = append(outb, []byte("\nvar _ = gopool.Go\n")...)
